@@ -112,6 +112,7 @@ type FuncVerifier struct {
 	curClause                                    *Clause
 	anchorStmts                                  map[ast.Stmt][]int
 	letObjs                                      map[string]types.Object
+	recvVar                                      *types.Var
 	yields                                       map[types.Object]*yieldCtx
 	rfOverride                                   *rangeFuncOverride
 	clauseCtx                                    *clauseCtx
@@ -911,12 +912,108 @@ func (fv *FuncVerifier) execStmt(s ast.Stmt, st *State) *State {
 	case *ast.GoStmt:
 		reject("go statement at %s", fv.pos(s.Pos()))
 	case *ast.SelectStmt:
-		reject("select statement at %s", fv.pos(s.Pos()))
+		return fv.execSelect(s, st)
 	case *ast.SendStmt:
 		reject("channel send at %s", fv.pos(s.Pos()))
 	}
 	reject("statement %T at %s", s, fv.pos(s.Pos()))
 	return nil
+}
+
+// ---------------------------------------------------------------- channel receives
+
+// recvObj is the specification-only counter of values received from channels since the verified
+// function was entered (__recvs() in contracts); the i-th received value is __recvval[T](i).
+func (fv *FuncVerifier) recvObj() types.Object {
+	if fv.recvVar == nil {
+		fv.recvVar = types.NewVar(token.NoPos, nil, "recvs", types.Typ[types.Int])
+	}
+	return fv.recvVar
+}
+
+func (fv *FuncVerifier) recvCount(st *State) Term {
+	if v, ok := st.vars[fv.recvObj()]; ok {
+		return v
+	}
+	return intT(0)
+}
+
+// receive models `<-ch`: the value is the next element of an arbitrary sequence of received values
+// (uninterpreted in its position), and the receive counter advances. Which goroutine sent it, and
+// whether the channel would block, are outside the model: every receive that is executed succeeds.
+func (fv *FuncVerifier) receive(chT types.Type, st *State) Term {
+	ct, ok := fv.subst(chT).Underlying().(*types.Chan)
+	if !ok {
+		reject("receive from a non-channel")
+	}
+	idx := fv.recvCount(st)
+	st.vars[fv.recvObj()] = fv.def("recvs", mk(sortInt, "(+ %s 1)", idx.S))
+	fv.u.note("channel receives: each executed receive yields the next element of an arbitrary sequence (__recvval) and advances __recvs(); blocking, closing and the sender side are not modelled")
+	es := fv.sortOf(ct.Elem())
+	if es == nil {
+		return Term{}
+	}
+	v := fv.recvVal(es, idx)
+	fv.assumeTyped(st, v, ct.Elem())
+	return v
+}
+
+func (fv *FuncVerifier) recvVal(es *Sort, idx Term) Term {
+	n := "chan_recv_" + sanitize(es.Name)
+	fv.u.declare("fun:"+n, fmt.Sprintf("(declare-fun %s (Int) %s)", n, es.Name))
+	return app(es, n, idx)
+}
+
+// execSelect: one of the communication clauses is chosen arbitrarily (a default clause may always
+// be chosen: the model does not know whether a channel is ready). Only receive clauses are modelled.
+func (fv *FuncVerifier) execSelect(s *ast.SelectStmt, st *State) *State {
+	base := len(st.pc)
+	choice := fv.u.freshConst("sel", sortInt)
+	lf := &loopFrame{}
+	fr := fv.frame()
+	fr.loops = append(fr.loops, lf) // break leaves the select
+	var outs []*State
+	for i, cc := range s.Body.List {
+		cl := cc.(*ast.CommClause)
+		a := st.clone()
+		a.assume(eq(choice, intT(int64(i))))
+		switch c := cl.Comm.(type) {
+		case nil:
+		case *ast.ExprStmt:
+			u, ok := ast.Unparen(c.X).(*ast.UnaryExpr)
+			if !ok || u.Op != token.ARROW {
+				reject("select clause at %s", fv.pos(c.Pos()))
+			}
+			fv.receive(fv.typeOf(u.X), a)
+		case *ast.AssignStmt:
+			u, ok := ast.Unparen(c.Rhs[0]).(*ast.UnaryExpr)
+			if !ok || u.Op != token.ARROW || len(c.Lhs) != 1 {
+				reject("select clause at %s (only `x := <-ch` is modelled)", fv.pos(c.Pos()))
+			}
+			v := fv.receive(fv.typeOf(u.X), a)
+			if id, ok := c.Lhs[0].(*ast.Ident); ok && c.Tok == token.DEFINE {
+				fv.bind(id, v, a)
+			} else {
+				fv.assign(c.Lhs[0], v, a)
+			}
+		default:
+			reject("channel send in select at %s", fv.pos(cl.Pos()))
+		}
+		if cl.Comm != nil && len(fv.spec.AssertsBefore) > 0 && fv.specMode == 0 && !fv.termMode && fv.frame().fd == fv.fd {
+			fv.checkAssertsBefore(cl.Comm, a, true) // clauses anchored after the communication statement
+		}
+		outs = append(outs, fv.execBlock(cl.Body, a))
+	}
+	fr.loops = fr.loops[:len(fr.loops)-1]
+	if len(lf.continues) > 0 {
+		if len(fr.loops) == 0 {
+			reject("continue outside loop")
+		}
+		outer := fr.loops[len(fr.loops)-1]
+		outer.continues = append(outer.continues, lf.continues...)
+	}
+	outs = append(outs, lf.breaks...)
+	return fv.mergeStates(outs, base)
 }
 
 func (fv *FuncVerifier) bind(id *ast.Ident, v Term, st *State) {
@@ -1359,6 +1456,11 @@ func (fv *FuncVerifier) modset(n ast.Node) *modSet {
 			}
 		case *ast.IncDecStmt:
 			mark(n.X)
+		case *ast.UnaryExpr:
+			if n.Op == token.ARROW {
+				ms.vars[fv.recvObj()] = true
+				ms.whole[fv.recvObj()] = true
+			}
 		case *ast.RangeStmt:
 			if n.Key != nil {
 				mark(n.Key)
